@@ -676,7 +676,21 @@ func (e *env) tr(x Expr) (Val, XT, error) {
 					ps = append(ps, s)
 				}
 			}
-			body = "(! " + body + " :pattern (" + strings.Join(ps, " ") + "))"
+			attrs := " :pattern (" + strings.Join(ps, " ") + ")"
+			for _, grp := range x.AltPatterns {
+				var qs []string
+				for _, pe := range grp {
+					pv, _, err := n.tr(pe)
+					if err != nil {
+						return nil, XT{}, err
+					}
+					if s, ok := pv.(string); ok {
+						qs = append(qs, s)
+					}
+				}
+				attrs += " :pattern (" + strings.Join(qs, " ") + ")"
+			}
+			body = "(! " + body + attrs + ")"
 		}
 		return "(" + q + " (" + strings.Join(binds, " ") + ") " + body + ")", xtBool, nil
 	case *EBin:
@@ -1224,7 +1238,7 @@ func (e *env) trCall(x *ECall) (Val, XT, error) {
 		argVals = append(argVals, v)
 		argXT = append(argXT, pxt)
 	}
-	if sf.Body == nil {
+	if sf.Body == nil || (g.hide != nil && g.hide(x.Fn)) {
 		var sorts, terms []string
 		for i, v := range argVals {
 			s, ok := v.(string)
